@@ -36,7 +36,9 @@ Inductive action :=
 | AUnlock (pid : bytes)                   (* lock.Unlock *)
 | AUpdatePassword (pid pw : bytes)        (* Authboss.UpdatePassword *)
 | AStartConfirm (pid : bytes)             (* confirm.StartConfirmation(user, sendEmail=true) *)
-| ASeed (u : user) (rm : list bytes).     (* harness writes a user record directly *)
+| ASeed (u : user) (rm : list bytes)      (* harness writes a user record directly *)
+| APlant (b k v : bytes)                  (* application code put a value into a session *)
+| ASetJar (cookie : bool) (b : bytes) (j : amap).  (* the browser's jar is replaced (session ended, cookie copied) *)
 
 Record obs := mkObs {
   ob_resp : option response;     (* what was written, if anything *)
@@ -87,6 +89,8 @@ Definition admin (O : oracle) (a : action) : M unit :=
       modify (fun h => h <| h_st := mkStorage (uput (u_pid u) u (s_users (h_st h)))
                                               (rmput (u_pid u) rm (s_rm (h_st h))) |>)
   | AReq _ => ret tt
+  | APlant _ _ _ => ret tt
+  | ASetJar _ _ _ => ret tt
   end.
 
 Definition obs_of (r : res unit) (h : hst) : obs :=
@@ -110,6 +114,11 @@ Definition step (w : world) (a : action) (O : oracle) : world * obs :=
                 | None => w1
                 end in
       (w2, obs_of r h)
+  | APlant b k v =>
+      (w <| w_sess := jar_set b (aput k v (jar_get b (w_sess w))) (w_sess w) |>,
+       obs_of (Ok tt) (init_hst (w_st w) O))
+  | ASetJar true b j => (w <| w_cook := jar_set b j (w_cook w) |>, obs_of (Ok tt) (init_hst (w_st w) O))
+  | ASetJar false b j => (w <| w_sess := jar_set b j (w_sess w) |>, obs_of (Ok tt) (init_hst (w_st w) O))
   | _ =>
       let '(r, h) := admin O a (init_hst (w_st w) O) in
       (w <| w_st := h_st h |>, obs_of r h)
